@@ -84,7 +84,7 @@ func TestClusterFaults(t *testing.T) {
 			return 0, false
 		}
 		run++
-		hdr := Event{"ev": "Run", "run": run, "mode": in.Mode, "failAt": failAt, "crashAt": crashAt, "scenario": in.Scenario, "ids": b.IDs}
+		hdr := Event{"ev": "Run", "run": run, "mode": in.Mode, "store": StoreName(), "failAt": failAt, "crashAt": crashAt, "scenario": in.Scenario, "ids": b.IDs}
 		evs := []Event{}
 		pre := env.Snapshot(b.Dims)
 		pre["when"] = "pre"
